@@ -1,4 +1,11 @@
-//! Model of the subset of ndarray used by ska: row-major Vec-backed 2-D array.
+//! Model of the subset of ndarray used by ska: fixed-capacity row-major 2-D array.
+//!
+//! Storage is RCAP rows of a CONSTANT pitch CCAP, so that every index computation multiplies by a
+//! compile-time constant only (a symbolic `row * ncols` costs a 64-bit multiplier per access in SAT and
+//! dominated the cost of every table harness). Strides of views are the two-valued `Stride` enum.
+//! Contract kept: value semantics of zeros/from_shape_vec/push_row/push_column/outer_iter/axis_iter/
+//! index_axis/slice/t/raw_dim/assign/mapv_inplace/map/sum_axis/as_slice/to_vec/nrows/ncols/Index incl. the
+//! ShapeError cases. Deliberately different: capacity is fixed (assert on overflow); serde is unimplemented.
 #[derive(Clone, Copy, Debug)]
 pub struct Axis(pub usize);
 #[derive(Clone, Copy, Debug, PartialEq, Eq)]
@@ -15,48 +22,71 @@ pub trait IntoShape2 { fn shape2(self) -> (usize, usize); }
 impl IntoShape2 for (usize, usize) { fn shape2(self) -> (usize, usize) { self } }
 impl IntoShape2 for Ix2 { fn shape2(self) -> (usize, usize) { (self.0[0], self.0[1]) } }
 
-pub use super::bounds::ACAP as CAP;
-#[derive(Clone, Debug, PartialEq, Eq)]
+pub use super::bounds::{CCAP, RCAP};
+/// total capacity
+pub const CAP: usize = RCAP * CCAP;
+
+#[derive(Clone, Copy, Debug, PartialEq, Eq)]
+pub enum Stride { One, Pitch }
+impl Stride {
+    #[inline(always)]
+    fn mul(self, i: usize) -> usize { match self { Stride::One => i, Stride::Pitch => i * CCAP } }
+    /// largest number of elements a view with this stride can have: iterators stop there on a CONCRETE
+    /// counter, so that loops over a symbolic number of rows/columns unroll to the capacity, not to the unwind bound
+    #[inline(always)]
+    fn cap(self) -> usize { match self { Stride::One => CCAP, Stride::Pitch => RCAP } }
+}
+
+#[derive(Clone, Debug)]
 pub struct Array2<T> { data: [T; CAP], r: usize, c: usize }
+impl<T: PartialEq> PartialEq for Array2<T> {
+    fn eq(&self, o: &Self) -> bool {
+        if self.r != o.r || self.c != o.c { return false; }
+        let mut i = 0;
+        while i < RCAP { if i < self.r { let mut j = 0; while j < CCAP { if j < self.c && self.data[i * CCAP + j] != o.data[i * CCAP + j] { return false; } j += 1; } } i += 1; }
+        true
+    }
+}
 
 /// 1-D strided view; `D` only keeps the real signature `ArrayView<u8, Dim<[usize; 1]>>` compiling.
-pub struct ArrayView<'a, T, D = Ix1> { base: &'a [T], start: usize, len: usize, stride: usize, _d: std::marker::PhantomData<D> }
+pub struct ArrayView<'a, T, D = Ix1> { base: &'a [T], start: usize, len: usize, stride: Stride, cap: usize, _d: std::marker::PhantomData<D> }
 impl<'a, T, D> Clone for ArrayView<'a, T, D> { fn clone(&self) -> Self { *self } }
 impl<'a, T, D> Copy for ArrayView<'a, T, D> {}
 pub type ArrayView1<'a, T> = ArrayView<'a, T, Ix1>;
 
-pub struct ViewIter<'a, T> { base: &'a [T], pos: usize, left: usize, stride: usize }
+pub struct ViewIter<'a, T> { base: &'a [T], pos: usize, left: usize, stride: Stride, n: usize, cap: usize }
 impl<'a, T> Iterator for ViewIter<'a, T> {
     type Item = &'a T;
     fn next(&mut self) -> Option<&'a T> {
-        if self.left == 0 { None } else { let x = &self.base[self.pos]; self.pos += self.stride; self.left -= 1; Some(x) }
+        if self.n >= self.cap || self.left == 0 { None } else { let x = &self.base[self.pos]; self.pos += self.stride.mul(1); self.left -= 1; self.n += 1; Some(x) }
     }
 }
 impl<'a, T> ArrayView<'a, T, Ix1> {
-    fn mk(base: &'a [T], start: usize, len: usize, stride: usize) -> Self { Self { base, start, len, stride, _d: std::marker::PhantomData } }
-    pub fn iter(&self) -> ViewIter<'a, T> { ViewIter { base: self.base, pos: self.start, left: self.len, stride: self.stride } }
+    fn mk(base: &'a [T], start: usize, len: usize, stride: Stride) -> Self { Self { base, start, len, stride, cap: stride.cap(), _d: std::marker::PhantomData } }
+    fn mk_vec(base: &'a [T]) -> Self { Self { base, start: 0, len: base.len(), stride: Stride::One, cap: usize::MAX, _d: std::marker::PhantomData } }
+    pub fn iter(&self) -> ViewIter<'a, T> { ViewIter { base: self.base, pos: self.start, left: self.len, stride: self.stride, n: 0, cap: self.cap } }
     pub fn len(&self) -> usize { self.len }
-    pub fn to_vec(&self) -> Vec<T> where T: Clone { self.iter().cloned().collect() }
-    pub fn as_slice(&self) -> Option<&'a [T]> { if self.stride == 1 || self.len <= 1 { Some(&self.base[self.start..self.start + self.len]) } else { None } }
+    pub fn to_vec(&self) -> Vec<T> where T: Clone { let mut v = Vec::with_capacity(self.len); for x in self.iter() { v.push(x.clone()); } v }
+    pub fn as_slice(&self) -> Option<&'a [T]> { if self.stride == Stride::One || self.len <= 1 { Some(&self.base[self.start..self.start + self.len]) } else { None } }
 }
-impl<'a, T> std::ops::Index<usize> for ArrayView<'a, T, Ix1> { type Output = T; fn index(&self, i: usize) -> &T { assert!(i < self.len); &self.base[self.start + i * self.stride] } }
+impl<'a, T> std::ops::Index<usize> for ArrayView<'a, T, Ix1> { type Output = T; fn index(&self, i: usize) -> &T { assert!(i < self.len); &self.base[self.start + self.stride.mul(i)] } }
 impl<'a, T> IntoIterator for ArrayView<'a, T, Ix1> { type Item = &'a T; type IntoIter = ViewIter<'a, T>; fn into_iter(self) -> ViewIter<'a, T> { self.iter() } }
 impl<'a, 'b, T> IntoIterator for &'b ArrayView<'a, T, Ix1> { type Item = &'a T; type IntoIter = ViewIter<'a, T>; fn into_iter(self) -> ViewIter<'a, T> { self.iter() } }
-impl<'a, T> From<&'a Vec<T>> for ArrayView<'a, T, Ix1> { fn from(v: &'a Vec<T>) -> Self { Self::mk(v.as_slice(), 0, v.len(), 1) } }
-impl<'a, T> From<&'a [T]> for ArrayView<'a, T, Ix1> { fn from(v: &'a [T]) -> Self { Self::mk(v, 0, v.len(), 1) } }
+impl<'a, T> From<&'a Vec<T>> for ArrayView<'a, T, Ix1> { fn from(v: &'a Vec<T>) -> Self { Self::mk_vec(v.as_slice()) } }
+impl<'a, T> From<&'a [T]> for ArrayView<'a, T, Ix1> { fn from(v: &'a [T]) -> Self { Self::mk_vec(v) } }
 
-/// 2-D view (possibly transposed) of an Array2
-pub struct ArrayView2<'a, T> { base: &'a [T], r: usize, c: usize, rs: usize, cs: usize }
+/// 2-D view (possibly transposed) of an Array2: element (i, j) is at rs.mul(i) + cs.mul(j)
+pub struct ArrayView2<'a, T> { base: &'a [T], r: usize, c: usize, rs: Stride, cs: Stride }
 impl<'a, T> Clone for ArrayView2<'a, T> { fn clone(&self) -> Self { *self } }
 impl<'a, T> Copy for ArrayView2<'a, T> {}
 pub struct AxisIter<'a, T> { v: ArrayView2<'a, T>, axis: usize, i: usize }
 impl<'a, T> Iterator for AxisIter<'a, T> {
     type Item = ArrayView1<'a, T>;
     fn next(&mut self) -> Option<Self::Item> {
-        let n = if self.axis == 0 { self.v.r } else { self.v.c };
-        if self.i >= n { return None; }
-        let out = if self.axis == 0 { ArrayView::mk(self.v.base, self.i * self.v.rs, self.v.c, self.v.cs) }
-                  else { ArrayView::mk(self.v.base, self.i * self.v.cs, self.v.r, self.v.rs) };
+        let (n, cap) = if self.axis == 0 { (self.v.r, self.v.rs.cap()) } else { (self.v.c, self.v.cs.cap()) };
+        if self.i >= cap || self.i >= n { return None; }
+        let out = if self.axis == 0 { ArrayView::mk(self.v.base, self.v.rs.mul(self.i), self.v.c, self.v.cs) }
+                  else { ArrayView::mk(self.v.base, self.v.cs.mul(self.i), self.v.r, self.v.rs) };
         self.i += 1;
         Some(out)
     }
@@ -64,7 +94,7 @@ impl<'a, T> Iterator for AxisIter<'a, T> {
 impl<'a, T> ArrayView2<'a, T> {
     pub fn outer_iter(&self) -> AxisIter<'a, T> { AxisIter { v: *self, axis: 0, i: 0 } }
     pub fn raw_dim(&self) -> Ix2 { Dim([self.r, self.c]) }
-    fn at(&self, i: usize, j: usize) -> &'a T { &self.base[i * self.rs + j * self.cs] }
+    fn at(&self, i: usize, j: usize) -> &'a T { &self.base[self.rs.mul(i) + self.cs.mul(j)] }
 }
 
 pub struct ColSel(pub usize);
@@ -75,64 +105,78 @@ pub use verif_nd_s as s;
 impl<T: Copy + Default> Array2<T> {
     pub fn zeros<S: IntoShape2>(shape: S) -> Self where T: Clone + Default {
         let (r, c) = shape.shape2();
-        assert!(r * c <= CAP);
+        assert!(r <= RCAP && c <= CCAP, "model Array2 capacity");
         Self { data: [T::default(); CAP], r, c }
     }
     pub fn from_shape_vec(shape: (usize, usize), data: Vec<T>) -> Result<Self, ShapeError> {
-        if shape.0 * shape.1 != data.len() || data.len() > CAP { return Err(ShapeError); }
+        if shape.0 * shape.1 != data.len() { return Err(ShapeError); }
+        assert!(shape.0 <= RCAP && shape.1 <= CCAP, "model Array2 capacity");
         let mut d = [T::default(); CAP];
-        for i in 0..CAP { if i < data.len() { d[i] = data[i]; } }
+        let mut i = 0;
+        while i < RCAP { if i < shape.0 { let mut j = 0; while j < CCAP { if j < shape.1 { d[i * CCAP + j] = data[i * shape.1 + j]; } j += 1; } } i += 1; }
         Ok(Self { data: d, r: shape.0, c: shape.1 })
     }
     pub fn nrows(&self) -> usize { self.r }
     pub fn ncols(&self) -> usize { self.c }
     pub fn raw_dim(&self) -> Ix2 { Dim([self.r, self.c]) }
-    pub fn view(&self) -> ArrayView2<'_, T> { ArrayView2 { base: &self.data, r: self.r, c: self.c, rs: self.c, cs: 1 } }
-    pub fn t(&self) -> ArrayView2<'_, T> { ArrayView2 { base: &self.data, r: self.c, c: self.r, rs: 1, cs: self.c } }
+    pub fn view(&self) -> ArrayView2<'_, T> { ArrayView2 { base: &self.data, r: self.r, c: self.c, rs: Stride::Pitch, cs: Stride::One } }
+    pub fn t(&self) -> ArrayView2<'_, T> { ArrayView2 { base: &self.data, r: self.c, c: self.r, rs: Stride::One, cs: Stride::Pitch } }
     pub fn outer_iter(&self) -> AxisIter<'_, T> { self.view().outer_iter() }
     pub fn axis_iter(&self, a: Axis) -> AxisIter<'_, T> { AxisIter { v: self.view(), axis: a.0, i: 0 } }
     pub fn index_axis(&self, a: Axis, i: usize) -> ArrayView1<'_, T> {
-        if a.0 == 0 { assert!(i < self.r); ArrayView::mk(&self.data, i * self.c, self.c, 1) }
-        else { assert!(i < self.c); ArrayView::mk(&self.data, i, self.r, self.c) }
+        if a.0 == 0 { assert!(i < self.r); ArrayView::mk(&self.data, i * CCAP, self.c, Stride::One) }
+        else { assert!(i < self.c); ArrayView::mk(&self.data, i, self.r, Stride::Pitch) }
     }
     pub fn slice(&self, s: ColSel) -> ArrayView1<'_, T> { self.index_axis(Axis(1), s.0) }
     pub fn push_row(&mut self, row: ArrayView1<'_, T>) -> Result<(), ShapeError> where T: Clone {
         if row.len() != self.c { return Err(ShapeError); }
-        assert!((self.r + 1) * self.c <= CAP);
-        let base = self.r * self.c;
-        for j in 0..CAP { if j < self.c { self.data[base + j] = row[j]; } }
+        assert!(self.r < RCAP, "model Array2 capacity (rows)");
+        // written with CONCRETE indices under symbolic guards: a write at the symbolic index r * CCAP + j would
+        // make CBMC treat the whole storage as an array with symbolic updates
+        let mut i = 0;
+        while i < RCAP {
+            if i == self.r { let mut j = 0; while j < CCAP { if j < self.c { self.data[i * CCAP + j] = row[j]; } j += 1; } }
+            i += 1;
+        }
         self.r += 1;
         Ok(())
     }
     pub fn push_column(&mut self, col: ArrayView1<'_, T>) -> Result<(), ShapeError> where T: Clone {
         if col.len() != self.r { return Err(ShapeError); }
-        assert!(self.r * (self.c + 1) <= CAP);
-        let mut nd = [T::default(); CAP];
-        let mut n = 0;
-        for i in 0..CAP { if i < self.r {
-            for j in 0..CAP { if j < self.c { nd[n] = self.data[i * self.c + j]; n += 1; } }
-            nd[n] = col[i]; n += 1;
-        } }
-        self.data = nd;
+        assert!(self.c < CCAP, "model Array2 capacity (columns)");
+        let mut j = 0;
+        while j < CCAP {
+            if j == self.c { let mut i = 0; while i < RCAP { if i < self.r { self.data[i * CCAP + j] = col[i]; } i += 1; } }
+            j += 1;
+        }
         self.c += 1;
         Ok(())
     }
-    pub fn mapv_inplace<F: FnMut(T) -> T>(&mut self, mut f: F) { let n = self.r * self.c; for i in 0..CAP { if i < n { self.data[i] = f(self.data[i]); } } }
-    pub fn map<B: Copy + Default, F: FnMut(&T) -> B>(&self, mut f: F) -> Array2<B> { let mut d = [B::default(); CAP]; let n = self.r * self.c; for i in 0..CAP { if i < n { d[i] = f(&self.data[i]); } } Array2 { data: d, r: self.r, c: self.c } }
+    pub fn mapv_inplace<F: FnMut(T) -> T>(&mut self, mut f: F) {
+        let mut i = 0;
+        while i < RCAP { if i < self.r { let mut j = 0; while j < CCAP { if j < self.c { self.data[i * CCAP + j] = f(self.data[i * CCAP + j]); } j += 1; } } i += 1; }
+    }
+    pub fn map<B: Copy + Default, F: FnMut(&T) -> B>(&self, mut f: F) -> Array2<B> {
+        let mut d = [B::default(); CAP];
+        let mut i = 0;
+        while i < RCAP { if i < self.r { let mut j = 0; while j < CCAP { if j < self.c { d[i * CCAP + j] = f(&self.data[i * CCAP + j]); } j += 1; } } i += 1; }
+        Array2 { data: d, r: self.r, c: self.c }
+    }
     pub fn assign(&mut self, v: &ArrayView2<'_, T>) where T: Clone {
         assert!(self.r == v.r && self.c == v.c);
-        for i in 0..self.r { for j in 0..self.c { self.data[i * self.c + j] = v.at(i, j).clone(); } }
+        let mut i = 0;
+        while i < RCAP { if i < self.r { let mut j = 0; while j < CCAP { if j < self.c { self.data[i * CCAP + j] = v.at(i, j).clone(); } j += 1; } } i += 1; }
     }
     pub fn sum_axis(&self, a: Axis) -> Array1<T> where T: Clone + Default + std::ops::Add<Output = T> {
         assert!(a.0 == 0);
         let mut out = vec![T::default(); self.c];
-        for i in 0..self.r { for j in 0..self.c { out[j] = out[j].clone() + self.data[i * self.c + j].clone(); } }
+        let mut i = 0;
+        while i < RCAP { if i < self.r { let mut j = 0; while j < CCAP { if j < self.c { out[j] = out[j].clone() + self.data[i * CCAP + j].clone(); } j += 1; } } i += 1; }
         Array1(out)
     }
-    pub fn iter(&self) -> std::slice::Iter<'_, T> { self.data[..self.r * self.c].iter() }
 }
-impl<T: Copy + Default> std::ops::Index<[usize; 2]> for Array2<T> { type Output = T; fn index(&self, ix: [usize; 2]) -> &T { assert!(ix[0] < self.r && ix[1] < self.c); &self.data[ix[0] * self.c + ix[1]] } }
-impl<T: Copy + Default> std::ops::IndexMut<[usize; 2]> for Array2<T> { fn index_mut(&mut self, ix: [usize; 2]) -> &mut T { assert!(ix[0] < self.r && ix[1] < self.c); &mut self.data[ix[0] * self.c + ix[1]] } }
+impl<T: Copy + Default> std::ops::Index<[usize; 2]> for Array2<T> { type Output = T; fn index(&self, ix: [usize; 2]) -> &T { assert!(ix[0] < self.r && ix[1] < self.c); &self.data[ix[0] * CCAP + ix[1]] } }
+impl<T: Copy + Default> std::ops::IndexMut<[usize; 2]> for Array2<T> { fn index_mut(&mut self, ix: [usize; 2]) -> &mut T { assert!(ix[0] < self.r && ix[1] < self.c); &mut self.data[ix[0] * CCAP + ix[1]] } }
 pub struct Array1<T>(Vec<T>);
 impl<T: Clone> Array1<T> { pub fn to_vec(&self) -> Vec<T> { self.0.clone() } }
 
